@@ -2,11 +2,13 @@ package grpcjson
 
 import (
 	"context"
+	"errors"
 	"io"
 	"strings"
 	"sync"
 
 	"github.com/spf13/afero"
+	ammo "github.com/yandex/pandora/components/providers/grpc"
 	"github.com/yandex/pandora/core"
 	"go.uber.org/zap"
 )
@@ -31,16 +33,49 @@ func (fs *hFs) Open(name string) (afero.File, error) {
 
 var _ io.Reader = (*hFile)(nil)
 
-// grpc/json provider: every line is taken as one valid entry (jsoniter is stubbed).
+// jsoniter.Unmarshal is a reflection-driven library: symbolically it is this stub, which reads the
+// harness' line format {"tag":"x"} (anything else is a syntax error); the native replay parses the
+// same lines with the real library.
+func vStub_github_com_json_iterator_go_Unmarshal(data []byte, v interface{}) error {
+	s := string(data)
+	if !strings.HasPrefix(s, `{"tag":"`) || !strings.HasSuffix(s, `"}`) {
+		return errors.New("jsoniter: syntax error")
+	}
+	v.(*ammo.Ammo).Tag = s[len(`{"tag":"`) : len(s)-2]
+	return nil
+}
+
+// grpc/json provider: limit/passes over files of 1-3 entries; with chosencases (limit counts
+// delivered entries), with a malformed line (rejected, or skipped under continue_on_error).
 func HarnessC08GrpcJSON() {
 	vSpinIsViolation()
 	E := int(vConcretize(vNondetInt("E", 1, 3)))
 	limit := int(vNondetInt("limit", 0, vHi(3, 8)))
 	passes := int(vNondetInt("passes", 0, vHi(3, 8)))
 	vAssume(limit != 0 || passes != 0)
-	lines := []string{`{"tag":"a"}`, `{"tag":"b"}`, `{"tag":"c"}`}
-	fs := &hFs{content: strings.Join(lines[:E], "\n") + "\n"}
-	p := NewProvider(fs, Config{File: "ammo", Limit: limit, Passes: passes})
+	lines := []string{`{"tag":"a"}`, `{"tag":"b"}`, `{"tag":"a"}`}[:E]
+	tags := []string{"a", "b", "a"}[:E]
+	badAt := int(vConcretize(vNondetInt("badAt", -1, int64(E)-1))) // a line that is not JSON (-1: none)
+	cont := vNondetBool("continueOnError")
+	if badAt >= 0 {
+		lines = append([]string{}, lines...)
+		lines[badAt] = `{"tag":`
+	}
+	var chosen []string
+	if vNondetBool("chooseA") {
+		chosen = []string{"a"}
+	}
+	// a line longer than max_ammo_size cannot be read at all: the scanner fails there
+	tooLongAt := -1
+	maxSize := 0
+	if badAt < 0 && vNondetBool("overlong") {
+		tooLongAt = int(vConcretize(vNondetInt("tooLongAt", 0, int64(E)-1)))
+		maxSize = 16
+		lines = append([]string{}, lines...)
+		lines[tooLongAt] = `{"tag":"` + strings.Repeat("a", 40) + `"}`
+	}
+	fs := &hFs{content: strings.Join(lines, "\n") + "\n"}
+	p := NewProvider(fs, Config{File: "ammo", Limit: limit, Passes: passes, ChosenCases: chosen, ContinueOnError: cont, MaxAmmoSize: maxSize})
 	var runErr error
 	done := false
 	var wg sync.WaitGroup
@@ -51,28 +86,68 @@ func HarnessC08GrpcJSON() {
 		done = true
 	}()
 	got := 0
-	ids := map[uint64]bool{}
 	for {
 		a, ok := p.Acquire()
 		if !ok {
 			break
 		}
-		_ = a
+		am := a.(*ammo.Ammo)
+		if len(chosen) > 0 && am.IsValid() {
+			vCheck("D1.only.chosen.tags", am.Tag == "a")
+		}
 		got++
 		vAssume(got <= 12)
 	}
-	_ = ids
 	wg.Wait()
-	exp := -1
-	if limit != 0 {
-		exp = limit
+	vCheck("D3.run.finished", done)
+	if tooLongAt >= 0 {
+		// the file cannot be read past that line: never a clean end of ammo, unless a limit stopped
+		// the provider before it got there
+		if limit == 0 {
+			vCheck("M12.unreadable.line.is.error", runErr != nil)
+		}
+		vReach("end")
+		return
 	}
-	if passes != 0 && (exp < 0 || passes*E < exp) {
-		exp = passes * E
+	if badAt >= 0 && !cont {
+		// the malformed line is rejected: the entries before it (first pass) were delivered
+		// (with a limit the provider may legitimately stop before it reaches that line)
+		if limit == 0 {
+			vCheck("M11.malformed.line.rejected", runErr != nil)
+		}
+		vReach("end")
+		return
+	}
+	// entries of one pass that are delivered (a skipped malformed line is delivered as invalid
+	// ammo when it passes the filter: its tag is empty)
+	per := 0
+	for i := 0; i < E; i++ {
+		t := tags[i]
+		if i == badAt {
+			t = ""
+		}
+		if len(chosen) == 0 || t == "a" {
+			per++
+		}
+	}
+	exp := -1
+	if per == 0 {
+		exp = 0
+	} else {
+		if limit != 0 {
+			exp = limit
+		}
+		if passes != 0 && (exp < 0 || passes*per < exp) {
+			exp = passes * per
+		}
+	}
+	if per == 0 && passes == 0 {
+		// nothing is ever delivered and nothing bounds the passes: outside this cell
+		vReach("end")
+		return
 	}
 	vCheck("D1.delivered.count", got == exp)
 	vCheck("D2.run.returns.nil", runErr == nil)
-	vCheck("D3.run.finished", done)
 	vObserve("got", int64(got))
 	vReach("end")
 }
